@@ -46,8 +46,8 @@ deriving DecidableEq, Repr
 inductive Access | rw | ro | guarded (g : Nat)
 deriving DecidableEq, Repr
 
-/-- error classes of the code: AttributeError, KeyError, ValueError, TypeError -/
-inductive Err | attr | key | value | type
+/-- error classes of the code: AttributeError, KeyError, ValueError, TypeError, AssertionError -/
+inductive Err | attr | key | value | type | assertion
 deriving DecidableEq, Repr
 
 inductive Tree where
@@ -362,6 +362,13 @@ def evalChars (cs : List Char) : Val :=
   | _ => .str (String.ofList cs)
 
 def evalEntry (s : String) : Val := evalChars s.toList
+
+/-- `eval_entry` ends with `assert isinstance(new_value, str | Number | Sequence)`: the text `None` (the only
+literal of the grammar that is neither a number, a sequence nor a string) is refused with `AssertionError` -/
+def evalEntryPy (s : String) : Except Err Val :=
+  match evalEntry s with
+  | .none => .error .assertion
+  | v => .ok v
 
 /-- the literals of the grammar, as syntax trees -/
 inductive Lit where
